@@ -120,22 +120,26 @@ Definition dec_pos (q : position) : pos :=
    string, []byte, time.Time, Raw) is not coded through the chosen function when it is a struct
    field (si.encBuiltin / si.decBuiltin), a slice/array element or a map key/value
    (ti.tielem/tikey.flagEncBuiltin, flagDecBuiltin) or a top-level value (encodeBuiltin /
-   decode type switch): it goes straight to the type switch, whatever the chain would choose --
-   in particular whatever TimeNotBuiltin says.  Behind a pointer or inside an interface the chain
-   decides.  (So with TimeNotBuiltin a time.Time is written natively in containers and through
-   MarshalBinary behind pointers: position dependent, but the same on both sides as long as the
-   two builtin lists agree.) ---- *)
+   decode type switch): it goes straight to the type switch.  Behind a pointer or inside an
+   interface the chain decides.  For time.Time the type-switch cases themselves test
+   h.timeBuiltin (since the repair of F17-2; [enc_builtin_time_guarded] /
+   [dec_builtin_time_guarded] are translated from the source): with TimeNotBuiltin they delegate
+   to the chosen function, so the shortcut is not taken for time in any position. ---- *)
 Definition builtin_pos (q : position) : bool :=
   match q with
   | PTop | PField | PSliceElem | PArrayElem | PMapValue | PMapKey => true
   | _ => false
   end.
 
+(* is the shortcut effective for this type / handle?  [guarded]: the time case honours timeBuiltin *)
+Definition shortcut (guarded builtin : bool) (f : flags) : bool :=
+  builtin && (negb (isTime f) || timeBuiltin f || negb guarded).
+
 Definition enc_mech_at (q : position) (encBuiltin : bool) (f : flags) : mech :=
-  if builtin_pos q && encBuiltin then MKind else fst (enc_choice f).
+  if builtin_pos q && shortcut enc_builtin_time_guarded encBuiltin f then MKind else fst (enc_choice f).
 
 Definition dec_mech_at (q : position) (decBuiltin : bool) (f : flags) : mech :=
-  if builtin_pos q && decBuiltin then MKind else fst (dec_choice f).
+  if builtin_pos q && shortcut dec_builtin_time_guarded decBuiltin f then MKind else fst (dec_choice f).
 
 (* membership in the translated builtin lists *)
 Definition is_enc_builtin (t : string) : bool := existsb (String.eqb t) enc_builtin_types.
